@@ -4959,7 +4959,7 @@ class FST:
         ast_cls = self.a.__class__
 
         if ast_cls not in ASTS_LEAF_EXPR:
-            return ast_cls in ASTS_LEAF_PATTERN
+            return ast_cls in ASTS_LEAF_PATTERN and ast_cls is not MatchStar  # '[a, (*b)]' is a syntax error
 
         if ast_cls in (
             (Slice, FormattedValue, Interpolation)
@@ -4967,6 +4967,14 @@ class FST:
             (Starred, Slice, FormattedValue, Interpolation)
         ):
             return False
+
+        if ast_cls is Tuple:
+            if any(e.__class__ is Slice for e in self.a.elts):  # 'a[(b:c, d)]' is a syntax error
+                return False
+
+        elif ast_cls in ASTS_LEAF_FTSTR:
+            if (pfield := self.pfield) and pfield.name == 'format_spec':  # this is not an expression in the source
+                return False
 
         if parent := self.parent:
             if ast_cls is Constant and parent.a.__class__ in ASTS_LEAF_FTSTR:
